@@ -374,10 +374,7 @@ func (c *Ctx) buildWiring() {
 			// a registration that a successful Init/Setup can skip (it depends on
 			// which other modules happen to be loaded already, on a flag, ...) is
 			// not something the flows can rely on
-			if _, isDefer := call.(*ssa.Defer); !isDefer {
-				q := PathQuery{StartBlock: fn.Blocks[0], Cut: func(i ssa.Instruction) bool { return i == call.(ssa.Instruction) }, GoalP: c.nonErrorReturn}
-				w.Conditional = q.Find() != nil
-			}
+			// (decided below, once all registrations of the function are known)
 			if v, ok := ConstInt(Arg(call, 1)); ok {
 				w.Event, w.Const = v, true
 			} else if tbl, evRows := RowValues(Arg(call, 1)); len(evRows) > 0 {
@@ -416,6 +413,41 @@ func (c *Ctx) buildWiring() {
 			c.wiring = append(c.wiring, w)
 		}
 	}
+	// conditional: the function can complete without this registration — or one
+	// that is the same in every respect (the copies a specialised tail leaves:
+	// one per way of arriving there)
+	same := func(a, b Wire) bool {
+		return a.In == b.In && a.Before == b.Before && a.Const && b.Const && a.Event == b.Event && a.Name == b.Name && a.Name != ""
+	}
+	for i := range c.wiring {
+		w := &c.wiring[i]
+		if _, isDefer := w.Call.(*ssa.Defer); isDefer {
+			continue
+		}
+		class := map[ssa.Instruction]bool{w.Call.(ssa.Instruction): true}
+		for _, o := range c.wiring {
+			if same(*w, o) {
+				class[o.Call.(ssa.Instruction)] = true
+			}
+		}
+		q := PathQuery{StartBlock: w.In.Blocks[0], Cut: func(i ssa.Instruction) bool { return class[i] }, GoalP: c.nonErrorReturn}
+		w.Conditional = q.Find() != nil
+	}
+	// the copies count once
+	var out []Wire
+	for _, w := range c.wiring {
+		dup := false
+		for _, o := range out {
+			if same(w, o) && w.Call != o.Call && !w.Conditional && !o.Conditional &&
+				!Reaches(w.Call.(ssa.Instruction), o.Call.(ssa.Instruction)) && !Reaches(o.Call.(ssa.Instruction), w.Call.(ssa.Instruction)) {
+				dup = true // alternatives, not a second registration
+			}
+		}
+		if !dup {
+			out = append(out, w)
+		}
+	}
+	c.wiring = out
 }
 
 // resolveFuncValue resolves a function-typed value to a function body.
